@@ -307,6 +307,17 @@ def build(cfg, weather_df=None):
 def make_model(cfg, weather_df=None):
     """Model for a configuration.  cfg['reuse'] = n > 0: the SAME input objects have first been used by n earlier
     model initialisations (the properties quantify over valid configurations, not over virgin objects)."""
+    for pr in cfg.get("prior") or []:
+        # objects constructed earlier in the process and never used by this model
+        try:
+            if "crop" in pr:
+                build_crop(pr["crop"])
+            elif "soil" in pr:
+                build_soil(pr["soil"])
+            elif "irr" in pr:
+                build_irr(pr["irr"])
+        except Exception:
+            pass
     kw = build(cfg, weather_df)
     for _ in range(int(cfg.get("reuse", 0) or 0)):
         from .observe import init_guard
